@@ -187,7 +187,7 @@ func safeParse(s string) (res string, q *proto.Query) {
 	select {
 	case x := <-ch:
 		return x.s, x.q
-	case <-time.After(20 * time.Second):
+	case <-time.After(20 * time.Second * watchdogScale):
 		return "hang", nil
 	}
 }
